@@ -558,19 +558,7 @@ func (c *converter) syncIngressHTTP(source *annotations.Source, ing *networking.
 			// See https://github.com/jcmoraisjr/haproxy-ingress/issues/981
 			// Moving this logic to updater will fix this behavior, in the mean time we'll add a few more
 			// tips in the doc.
-			if url := annBack[ingtypes.BackAuthURL]; url != "" {
-				urlProto, urlHost, urlPort, _, _ := ingutils.ParseURL(url)
-				if (urlProto == "service" || urlProto == "svc") && urlHost != "" && urlPort != "" {
-					authSvcName := urlHost
-					if !strings.Contains(authSvcName, "/") {
-						authSvcName = ing.Namespace + "/" + authSvcName
-					}
-					_, err := c.addBackend(source, pathLink, authSvcName, urlPort, map[string]string{})
-					if err != nil {
-						c.logger.Warn("skipping auth-url on %v: %v", source, err)
-					}
-				}
-			}
+			c.addAuthURLBackend(source, pathLink, annBack)
 		}
 	}
 	for _, tls := range ing.Spec.TLS {
@@ -834,7 +822,30 @@ func (c *converter) addDefaultHostBackend(source *annotations.Source, fullSvcNam
 	}
 	host := c.addHost(hostname, source, annHost)
 	host.AddPath(backend, uri, match)
+	// the default backend of an ingress can declare auth-url as well
+	c.addAuthURLBackend(source, pathLink, annBack)
 	return nil
+}
+
+// addAuthURLBackend pre-builds the backend of an auth-url declared as a
+// service, so it exists and is tracked by the ingress that uses it, even
+// if no other ingress resource routes requests to that service.
+func (c *converter) addAuthURLBackend(source *annotations.Source, pathLink *hatypes.PathLink, annBack map[string]string) {
+	url := annBack[ingtypes.BackAuthURL]
+	if url == "" {
+		return
+	}
+	urlProto, urlHost, urlPort, _, _ := ingutils.ParseURL(url)
+	if (urlProto == "service" || urlProto == "svc") && urlHost != "" && urlPort != "" {
+		authSvcName := urlHost
+		if !strings.Contains(authSvcName, "/") {
+			authSvcName = source.Namespace + "/" + authSvcName
+		}
+		_, err := c.addBackend(source, pathLink, authSvcName, urlPort, map[string]string{})
+		if err != nil {
+			c.logger.Warn("skipping auth-url on %v: %v", source, err)
+		}
+	}
 }
 
 func (c *converter) addTCPService(source *annotations.Source, hostname string, ann map[string]string) (*hatypes.TCPServiceHost, error) {
